@@ -820,6 +820,26 @@ func (f *frame) loopHeader(li *loopInfo, st *State, phiVals map[*ssa.Phi]Val) {
 			g.assumeUnder(st.reach, fmt.Sprintf("(and (>= %s (- 1)) (< %s 9223372036854775807))", cur[phi].T, cur[phi].T))
 		}
 	}
+	// no dangling references: whatever a loop variable refers to at the head has been allocated
+	// (values only come from allocations, allocation only grows)
+	for _, in := range li.header.Instrs {
+		phi, ok := in.(*ssa.Phi)
+		if !ok {
+			break
+		}
+		v, ok := cur[phi]
+		if !ok || v.T == phiVals[phi].T {
+			continue
+		}
+		al := g.arr(st.heap, "alloc", "Bool")
+		switch phi.Type().Underlying().(type) {
+		case *types.Slice:
+			g.assumeUnder(st.reach, fmt.Sprintf("(or (= (s-arr %s) 0) (select %s (s-arr %s)))", v.T, al, v.T))
+		case *types.Map, *types.Chan:
+			// (pointers are left out: they may be field or element addresses, which are not allocation units)
+			g.assumeUnder(st.reach, fmt.Sprintf("(or (= %s 0) (select %s %s))", v.T, al, v.T))
+		}
+	}
 	li.phiCur = cur
 	li.headHeap = st.heap.clone()
 	if f.top {
